@@ -23,6 +23,9 @@ for line in open(spec):
     f = os.path.join(d, os.path.basename(rel))
     open(f, "w").write(src.replace(old_u, new_u, 1))
     files = sorted(os.path.join(V, "harness", pid, x) for x in os.listdir(os.path.join(V, "harness", pid)) if x.endswith(".go"))
+    inc = os.path.join(V, "harness", pid, "include.txt")
+    if os.path.exists(inc):
+        files += [os.path.normpath(os.path.join(V, "harness", pid, l.strip())) for l in open(inc) if l.strip() and not l.startswith("#")]
     cmd = [os.path.join(V, "engine", "gosx"), "-id", pid, "-tier", tier, "-out", "/tmp/vxmut-out", "-overlay", f"{rel}={f}"] + files
     r = subprocess.run(cmd, capture_output=True, text=True)
     viol = [l for l in r.stdout.splitlines() if l.startswith("  entry=")]
